@@ -75,18 +75,35 @@ def build_crit(t):
     return tf.build(t)
 
 
-def start_builder(case):
+VIAS = (None, "factory", "query_cls")
+
+
+def start_builder(case, calls=()):
+    """-> (builder, table, calls still to apply).  case["via"] chooses the public spelling of the statement starter:
+    None: Q.into(t) / Q.update(t) / Q.from_(t).delete();  "factory": t = Q.Table(name);  "query_cls": t = Table(name,
+    query_cls=Q) — and then t.insert(*args) (which IS the first insert call), t.update(), Q.from_(t).delete()."""
     from pypika import Table
     Q = qclass(case["cls"])
     kind, tname = case["start"]
-    tbl = Table(tname)
+    via = case.get("via")
+    if via not in VIAS:
+        raise ValueError("unknown statement-starter spelling %r" % (via,))
+    calls = list(calls)
+    if via == "factory":
+        tbl = Q.Table(tname)
+    elif via == "query_cls":
+        tbl = Table(tname, query_cls=Q)
+    else:
+        tbl = Table(tname)
     if kind == "builder":      # nothing chosen yet: into() / from_() / select() come as calls
-        return Q._builder(), tbl
+        return Q._builder(), tbl, calls
     if kind == "into":
-        return Q.into(tbl), tbl
+        if via and calls and calls[0][0] == "insert":
+            return tbl.insert(*[py_arg(a) for a in calls[0][1]]), tbl, calls[1:]
+        return Q.into(tbl), tbl, calls
     if kind == "update":
-        return Q.update(tbl), tbl
-    return Q.from_(tbl).delete(), tbl
+        return (tbl.update() if via else Q.update(tbl)), tbl, calls
+    return Q.from_(tbl).delete(), tbl, calls
 
 
 def apply_calls(q, tbl, calls):
@@ -109,6 +126,8 @@ def apply_calls(q, tbl, calls):
             q = q.where(build_crit(call[1]))
         elif k == "limit":
             q = q.limit(call[1])
+        elif k == "retarget":      # q.replace_table(Table(old), Table(new)) with a Table that EQUALS the target but is another object
+            q = q.replace_table(Table(call[1]), Table(call[2]))
         elif k == "into":
             q = q.into(tbl if call[1] == tbl._table_name else Table(call[1]))
         elif k == "from":
@@ -121,8 +140,8 @@ def apply_calls(q, tbl, calls):
 
 
 def build(case):
-    q, tbl = start_builder(case)
-    return apply_calls(q, tbl, case["calls"])
+    q, tbl, rest = start_builder(case, case["calls"])
+    return apply_calls(q, tbl, rest)
 
 
 def cell_dump(x):
@@ -165,8 +184,8 @@ def run_f(case):
     """a fork: the prefix is built once and KEPT; every branch is derived from that one object; the prefix is
     observed again afterwards"""
     try:
-        q0, tbl = start_builder(case)
-        q0 = apply_calls(q0, tbl, case["prefix"])
+        q0, tbl, rest = start_builder(case, case["prefix"])
+        q0 = apply_calls(q0, tbl, rest)
     except Exception as e:  # noqa
         return {"build_exc": type(e).__name__}
     out = {"before": observe(q0), "branches": []}
@@ -262,6 +281,8 @@ def coq_call(call, tname):
 def modelled(case):
     """shapes the model declares unmodelled (Err "unmodelled") are not sent to the correspondence check"""
     for call in case["calls"]:
+        if call[0] == "retarget":      # replace_table on the builder is C15's model; here it is judged by the engine only
+            return False
         if call[0] == "columns":
             items = call[1]
             if items and items[0][0] != "seq" and any(i[0] == "seq" for i in items[1:]):
